@@ -2,8 +2,8 @@ package c18
 
 import (
 	"context"
-	"os"
 	"fmt"
+	"os"
 	"strings"
 	"testing"
 	"time"
@@ -131,8 +131,8 @@ func checkReconf(t *testing.T, c ReconfCase) (v harness.Verdict) {
 	for _, r := range trusted {
 		ders = append(ders, r.DER)
 	}
+	chainClasses(&v, c.Chain)
 	if c.Chain.Lone {
-		v.Class("chain:lone-root")
 		defer os.Remove(ctfex.RootsFile(ders))
 	}
 	// the one message object that lives through the whole case
